@@ -54,3 +54,22 @@ def ApplyCallable(func, datum, args, kwargs):
 def is_prefix(a, b):
     """Sequence a is a prefix of sequence b."""
     return list(b[:len(a)]) == list(a)
+
+
+def IsJson(x):
+    """x is pure JSON-compatible data: it survives json.dumps / json.loads unchanged (type-exactly)."""
+    import json
+    try:
+        y = json.loads(json.dumps(x))
+    except (TypeError, ValueError):
+        return False
+
+    def teq(a, b):
+        if type(a) is not type(b):
+            return False
+        if isinstance(a, dict):
+            return list(a) == list(b) and all(teq(a[k], b[k]) for k in a)
+        if isinstance(a, list):
+            return len(a) == len(b) and all(teq(i, j) for i, j in zip(a, b))
+        return a == b
+    return teq(x, y)
